@@ -363,20 +363,27 @@ def rule_r4b(chk, db):
                 why = "ParseS3PathError::KeyTooLong is returned without check_key having refused the key"
             chk.verdict(ok, "R4", "too-long-only-from-check_key@%s" % short(db.root_of(b).name), b.loc(bi),
                         why + ": a length bound measured on something other than the decoded key refuses keys of up to 1024 bytes")
-    chk.floor("R4.sites", n, 3, "constructions of KeyTooLong / KeyTooLongError outside the error tables")
+    chk.floor("R4.sites", n, 2, "constructions of KeyTooLong / KeyTooLongError outside the error tables")
 
 
 def rule_r1q(chk, db):
     """the query string reaches OrderedQs::parse (which decodes each name and value once) as Uri::query() gave it"""
-    sites = [(b, bi, t) for b in db.grep("OrderedQs::parse") if b.crate == "s3s" and "::tests::" not in b.name for bi, t in b.calls()
-             if callee_def(t).endswith("ordered_qs::OrderedQs::parse")]
+    def parse_use(t):
+        """the operand that is parsed: the argument of a direct call, or the receiver of an adaptor that is handed `OrderedQs::parse`
+        (`uri.query().map(OrderedQs::parse)`)"""
+        if callee_def(t).endswith("ordered_qs::OrderedQs::parse") and t["args"]:
+            return t["args"][0]
+        if len(t["args"]) >= 2 and any(isinstance(a, dict) and a.get("c") == "fn" and a.get("def", "").endswith("ordered_qs::OrderedQs::parse") for a in t["args"][1:]):
+            return t["args"][0]
+        return None
+    sites = [(b, bi, t) for b in db.grep("OrderedQs::parse") if b.crate == "s3s" and "::tests::" not in b.name for bi, t in b.calls() if parse_use(t) is not None]
     chk.floor("R1.query", len(sites), 1, "OrderedQs::parse call sites")
     for b, bi, t in sites:
         ib = inline.inlined(db, b) if b.kind in ("Fn", "AssocFn") else b
         for bi2, t2 in ib.calls():
-            if not callee_def(t2).endswith("ordered_qs::OrderedQs::parse"):
+            if parse_use(t2) is None:
                 continue
-            sl = flow.backward(ib, t2["args"][0], at=bi2)
+            sl = flow.backward(ib, parse_use(t2), at=bi2)
             decs = sorted({callee_def(x) for _, x, _ in sl.calls if is_decoder(callee_def(x))})
             from_uri = any(callee_def(x) == "http::uri::Uri::query" for _, x, _ in sl.calls)
             chk.verdict(from_uri and not decs, "R1", "query-decoded-once@%s" % short(db.root_of(b).name), ib.loc(bi2),
